@@ -255,7 +255,9 @@ impl<'a, G: AffineRepr> Iterator for AggregatedGensIter<'a, G> {
     type Item = &'a G;
 
     fn next(&mut self) -> Option<Self::Item> {
-        if self.gen_idx >= self.n {
+        // Skip exhausted parties (a loop, so that n == 0 yields nothing
+        // instead of indexing generator 0 of the following parties).
+        while self.gen_idx >= self.n && self.party_idx < self.m {
             self.gen_idx = 0;
             self.party_idx += 1;
         }
